@@ -1,1 +1,5 @@
+pub mod c03;
+pub mod c04;
+pub mod c11;
+pub mod c12;
 pub mod server_props;
